@@ -14,14 +14,14 @@ SX_NOTE = (
 
 CLAIMED = {
     "C02": dict(
-        text="Bounded symbolic execution of the real consumers/serializer base classes: for every stream of <=N symbolic bytes, every placement of <=K cuts, both receive paths, the delivered packet/error sequence equals reference frame-by-frame decoding; after a size rejection (junk length L-S-2..L+S+2) later frames arrive intact; the JSON raw parser's limit inside a document is covered the same way. The solver decides over all byte values/cuts inside the bound; rare (cut, limit, stale byte) combinations are what tests cannot sample.",
+        text="Bounded symbolic execution of the real consumers/serializer base classes: for every stream of <=N symbolic bytes, every placement of <=K cuts, both receive paths, the delivered packet/error sequence equals reference frame-by-frame decoding; after a size rejection (junk length L-S-2..L+S+2) later frames arrive intact; JSON raw mode is compared with an independent reference framing (bracket/quote rule); for at-the-limit frames the strict reading (nothing of the rejected frame surfaces) is checked where the pinned tree satisfies it. The solver decides over all byte values/cuts inside the bound; rare (cut, limit, stale byte) combinations are what tests cannot sample.",
         design="4/C02",
         technique="symbolic execution of real code (CrossHair+z3), differential vs reference decoder, per-path concrete validation",
     ),
 }
 
 CLAIMED["C07"] = dict(
-    text="Bounded symbolic execution of the real scanners/consumers: for every unterminated stream of N symbolic bytes delivered in reads of <=R bytes at symbolic cut positions, the bytes the receiver can still hold never exceed L+R+S before a limit error surfaces (separator-framed base class, StringLineSerializer, JSON line and raw mode, file-based base class incl. broad expected_load_error); and every frame safely under the limit (incl. exactly at the margin) is delivered for every chunking on both receive paths.",
+    text="Bounded symbolic execution of the real scanners/consumers: for every unterminated stream of N symbolic bytes delivered in reads of <=R bytes at symbolic cut positions, the bytes the receiver can still hold never exceed L+R+S before a limit error surfaces (separator-framed base class, StringLineSerializer, JSON line and raw mode, file-based base class incl. broad expected_load_error); and every frame safely under the limit (incl. exactly at the margin) is delivered for every chunking on both receive paths; pipelined JSON documents (line and raw mode) under the limit in a stream longer than the limit are all delivered.",
     design="4/C07",
     technique="symbolic execution of real code (CrossHair+z3): byte contents, cut positions symbolic; per-path concrete validation",
 )
@@ -41,33 +41,33 @@ CLAIMED["C06"] = dict(
 )
 
 CLAIMED["C05"] = dict(
-    text="Bounded symbolic execution of the real DatagramProtocol, the one-shot interface derived from incremental serializers, and the sync + async datagram endpoints over an in-memory datagram FIFO: a datagram of N symbolic bytes is accepted iff it is exactly one complete frame; in a solver-chosen sequence of sent packets (symbolic contents) and injected arbitrary datagrams every position yields what a fresh endpoint yields for that datagram alone, sent packets come back equal, one transport.send per send_packet (empty payloads included) and one recv per recv_packet. The real asyncio DatagramEndpoint + protocol run on a deterministic loop with solver-chosen arrivals and cancellations of a pending recvfrom: no datagram is lost.",
+    text="Bounded symbolic execution of the real DatagramProtocol, the one-shot interface derived from incremental serializers, and the sync + async datagram endpoints over an in-memory datagram FIFO: a datagram of N symbolic bytes is accepted iff it is exactly one complete frame; in a solver-chosen sequence of sent packets (symbolic contents) and injected arbitrary datagrams every position yields what a fresh endpoint yields for that datagram alone, sent packets come back equal, one transport.send per send_packet (empty payloads included) and one recv per recv_packet; the same through the real UDPNetworkClient (SocketDatagramTransport + scripted SOCK_DGRAM socket) and AsyncUDPNetworkClient. The real asyncio DatagramEndpoint + protocol run on a deterministic loop with solver-chosen arrivals and cancellations of a pending recvfrom: no datagram is lost.",
     design="4/C05",
     technique="symbolic execution of real code (CrossHair+z3): symbolic datagram bytes and packet contents, differential against a fresh protocol object",
 )
 
 CLAIMED["C04"] = dict(
-    text="Bounded symbolic execution of the real SocketStreamTransport.send_all / send_all_from_iterable (sendmsg and join variants, SC_IOV_MAX real/2/0), adjust_leftover_buffer, _retry and StreamEndpoint.send_packet over a fake non-blocking socket: chunk vectors with empty chunks in every position (symbolic contents), solver-chosen partial-write sizes and would-block pattern. Asserted: the call returns, bytes accepted by the kernel == concatenation of the chunks, environment calls within the fuel bound (a spin is a violation); with a finite budget T and time as a solver variable the call ends within T.",
+    text="Bounded symbolic execution of the real SocketStreamTransport.send_all / send_all_from_iterable (sendmsg and join variants, SC_IOV_MAX real/2/0), adjust_leftover_buffer, _retry and StreamEndpoint.send_packet over a fake non-blocking socket: chunk vectors with empty chunks in every position (symbolic contents), solver-chosen partial-write sizes and would-block pattern. Asserted: the call returns, bytes accepted by the kernel == concatenation of the chunks, environment calls within the fuel bound (a spin is a violation); with a finite budget T and time as a solver variable the call ends within T. Asynchronous senders (AsyncStreamEndpoint.send_packet, the asyncio adapter's send_all / send_all_from_iterable, the default join implementation) over the real flow control on a deterministic loop: wire == concatenation, return only after the bytes reached the kernel.",
     design="4/C04",
     technique="symbolic execution of real code (CrossHair+z3): partial-write sizes, EAGAIN pattern, elapsed times as solver variables; fuel bound for termination",
-    note="Sync plain-socket transport and endpoint; SSLStreamTransport (OpenSSL) and the asyncio/TLS senders are outside this check (C12/C20 cover the asyncio ones).",
+    note="SSLStreamTransport (OpenSSL) is outside; the async TLS backlog is driven in C12.",
 )
 CLAIMED["C11"] = dict(
-    text="Bounded symbolic execution with time as a solver variable: every selector wait and lock wait advances a virtual clock by a symbolic number of ticks. For _retry (via transport.recv/send), send_all / send_all_from_iterable, StreamEndpoint.recv_packet with a drip-fed frame (both receive paths) and the real TCPNetworkClient (send_packet, recv_packet, iter_received_packets with a contended lock): elapsed <= T, TimeoutError only when the whole budget is consumed, T = 0 never waits.",
+    text="Bounded symbolic execution with time as a solver variable: every selector wait and lock wait advances a virtual clock by a symbolic number of ticks. For _retry (via transport.recv/send), send_all / send_all_from_iterable, StreamEndpoint.recv_packet with a drip-fed frame (both receive paths) and the real TCPNetworkClient and UDPNetworkClient (send_packet, recv_packet, iter_received_packets with a contended lock; a selector that never reports readiness although a retry succeeds - the retry_interval contract): elapsed <= T, TimeoutError only when the whole budget is consumed, T = 0 never waits.",
     design="4/C11",
     technique="symbolic execution of real code (CrossHair+z3) with a virtual clock: elapsed times, readiness, would-block and lock contention as solver variables",
     note="Processing time between waits is modelled as zero; integer ticks; <= K would-blocks per call in the SX shards; the KS shard adds loop-head induction (no bound on wake-ups / partial writes) for _retry, send_all and the sendmsg loop.",
 )
 
 CLAIMED["C10"] = dict(
-    text="Bounded symbolic execution on a deterministic event loop with real asyncio tasks of every receive layer named by the property: StreamReaderBufferedProtocol + AsyncioTransportStreamSocketAdapter (recv / recv_into), AsyncStreamEndpoint.recv_packet on both receive paths, the server request receivers, AsyncTCPNetworkClient.recv_packet, and two real AsyncTLSStreamTransport objects (real ssl objects) over an in-memory pipe: a solver-chosen sequence of K events (loop iteration / kernel delivers k bytes / task.cancel() or expiry of the enclosing move_on_after scope) with symbolic arrival and receive sizes, then a drain. Asserted: everything returned by successful receives, concatenated, equals the stream (no byte or packet lost, duplicated or reordered), no receive raises, the drain terminates.",
+    text="Bounded symbolic execution on a deterministic event loop with real asyncio tasks of every receive layer named by the property: StreamReaderBufferedProtocol + AsyncioTransportStreamSocketAdapter (recv / recv_into), AsyncStreamEndpoint.recv_packet on both receive paths, the server request receivers, AsyncTCPNetworkClient.recv_packet, and two real AsyncTLSStreamTransport objects (real ssl objects) over an in-memory pipe (receive sizes also smaller than a TLS record); and the blocking layers (StreamEndpoint, StreamReceiverEndpoint, TCPNetworkClient recv_packet / iter_received_packets over SocketStreamTransport + scripted socket) whose timed receives end with TimeoutError at solver-chosen points inside a frame: a solver-chosen sequence of K events (loop iteration / kernel delivers k bytes / task.cancel() or expiry of the enclosing move_on_after scope) with symbolic arrival and receive sizes, then a drain. Asserted: everything returned by successful receives, concatenated, equals the stream (no byte or packet lost, duplicated or reordered), no receive raises, the drain terminates.",
     design="4/C10",
     technique="symbolic execution of real code (CrossHair+z3) over event schedules and sizes on a deterministic asyncio loop",
     note="Schedule/size space exhaustion: stream contents are concrete distinct bytes; the solver decides event order, arrival sizes and receive sizes. In the TLS shards OpenSSL runs concretely (only the schedule is symbolic; the assertion is about the Python glue around a cancelled want-read). Open known finding F-C10-connect (cancel during AsyncTCPNetworkClient's lazy connect) is excluded by signature and printed as KNOWN-FINDING.",
 )
 
 CLAIMED["C20"] = dict(
-    text="Bounded symbolic execution of the real WriteFlowControl / writer_drain / AsyncioTransportStreamSocketAdapter.send_all over a fake asyncio transport on a deterministic loop: 2-3 sender tasks, a solver-chosen sequence of events (loop iteration, kernel takes j bytes, start sender, cancel a sender, fatal error) with symbolic immediate-accept and flush sizes, then a final resume or connection loss. Asserted: user-space buffering disabled (high-water mark 0); a send_all that returns did so only after its own bytes reached the kernel; after the final resume every non-cancelled sender returned; after a loss every unfinished sender raises OSError (no hang, no silent drop); cancelling one parked sender strands nobody.",
+    text="Bounded symbolic execution of the real WriteFlowControl / writer_drain / AsyncioTransportStreamSocketAdapter.send_all / send_all_from_iterable over a fake asyncio transport on a deterministic loop: 2-3 sender tasks, a solver-chosen sequence of events (loop iteration, kernel takes j bytes, start sender, cancel a sender, fatal error) with symbolic immediate-accept and flush sizes, then a final resume or connection loss. Asserted: user-space buffering disabled (high-water mark 0); a send_all that returns did so only after its own bytes reached the kernel; after the final resume every non-cancelled sender returned; after a loss every unfinished sender raises OSError (no hang, no silent drop); cancelling one parked sender strands nobody.",
     design="4/C20",
     technique="symbolic execution of real code (CrossHair+z3) over event schedules and sizes on a deterministic asyncio loop",
     note="Also driven: the datagram users of the same WriteFlowControl class (asyncio DatagramEndpoint.sendto, DatagramListenerSocketAdapter.send_to) with the same event alphabet.",
@@ -80,26 +80,26 @@ CLAIMED["C03"] = dict(
 )
 
 CLAIMED["C15"] = dict(
-    text="Bounded symbolic execution of the real AsyncStreamServer client coroutine, both request receivers, the async-generator actions and build_lowlevel_stream_server_handler on a deterministic loop (real task groups and timeout scopes) over an in-memory listener/transport: frames that are well-formed or malformed by solver choice, a solver-chosen sequence of events (loop iteration, client sends k bytes, time passes), handler shapes (1/2/unbounded requests per generator, yielded timeout None/0/5, on_connection coroutine or generator, handler closes the client). Asserted: requests and parse errors seen by the handler == reference decoding, in order, once, across generator restarts; TimeoutError only without a received complete request; every generator closed exactly once; transport closed and on_disconnection once; responses in order.",
+    text="Bounded symbolic execution of the real AsyncStreamServer client coroutine, both request receivers, the async-generator actions and build_lowlevel_stream_server_handler on a deterministic loop (real task groups and timeout scopes) over an in-memory listener/transport: frames that are well-formed or malformed by solver choice, a solver-chosen sequence of events (loop iteration, client sends k bytes, time passes), handler shapes (1/2/unbounded requests per generator, yielded timeout None/0/5, on_connection coroutine or generator (also one that yields two different timeouts), handler closes the client). Asserted: requests and parse errors seen by the handler == reference decoding, in order, once, across generator restarts; TimeoutError only without a received complete request; every generator closed exactly once; transport closed and on_disconnection once; responses in order.",
     design="4/C15",
     technique="symbolic execution of real code (CrossHair+z3) over event schedules, feed sizes and frame validity on a deterministic asyncio loop",
 )
 
 CLAIMED["C16"] = dict(
-    text="Bounded symbolic execution of the real AsyncDatagramServer (serve, client coroutine, inner loop, task-done respawn), _ClientData, the real DatagramListenerProtocol and build_lowlevel_datagram_server_handler on a deterministic loop: two client addresses, a solver-chosen interleaving of arrivals and loop iterations, datagrams well-formed or malformed by solver choice, handler shapes (returns after k requests, suspends s iterations, yields timeout None/0, blocks forever for one client). Asserted: per-address exactly-once in-order delivery of requests and parse errors, never two active generators per address, everything handled within the step budget, a blocked client does not delay the other, the server task never crashes.",
+    text="Bounded symbolic execution of the real AsyncDatagramServer (serve, client coroutine, inner loop, task-done respawn), _ClientData, the real DatagramListenerProtocol and build_lowlevel_datagram_server_handler on a deterministic loop: two client addresses, a solver-chosen interleaving of arrivals and loop iterations, datagrams well-formed or malformed by solver choice, handler shapes (returns after k requests, suspends s iterations, yields timeout None/0, blocks forever for one client, lets a CancelledError escape; datagrams received before serve() starts; handlers through build_lowlevel_datagram_server_handler and as raw low-level generators). Asserted: per-address exactly-once in-order delivery of requests and parse errors, never two active generators per address, everything handled within the step budget, a blocked client does not delay the other, the server task never crashes.",
     design="4/C16",
     technique="symbolic execution of real code (CrossHair+z3) over arrival interleavings and datagram validity on a deterministic asyncio loop",
 )
 
 CLAIMED["C12"] = dict(
-    text="Bounded symbolic execution on a deterministic loop of concurrent send_packet calls on the real AsyncTCPNetworkClient (FairLock, connect on first use), the server-side _ConnectedClientAPI, and the real AsyncTLSStreamTransport (write backlog, fair transport locks, concurrent receiver on the want-read path) over a pass-through stub SSL object: 2-3 sender tasks x 1-2 two-chunk packets, every transport write suspends, a solver-chosen schedule of loop iterations, sender starts, peer bytes and one cancellation of a waiting sender, solver-chosen want-write faults. Asserted: every non-cancelled call returns; the wire is a sequence of whole packets, each once, per-sender order kept; nobody is stranded.",
+    text="Bounded symbolic execution on a deterministic loop of concurrent send_packet calls on the real AsyncTCPNetworkClient (FairLock, connect on first use), the server-side _ConnectedClientAPI, and the real AsyncTLSStreamTransport (write backlog, fair transport locks, concurrent receiver on the want-read path) over a pass-through stub SSL object, each with asyncio's lock and with the backend-independent FairLock (which is also driven alone: mutual exclusion, first-come-first-served, nobody stranded): 2-3 sender tasks x 1-2 two-chunk packets, every transport write suspends, a solver-chosen schedule of loop iterations, sender starts, peer bytes and one cancellation of a waiting sender, solver-chosen want-write faults. Asserted: every non-cancelled call returns; the wire is a sequence of whole packets, each once, per-sender order kept; nobody is stranded.",
     design="4/C12",
     technique="symbolic execution of real code (CrossHair+z3) over task schedules on a deterministic asyncio loop",
     note="asyncio objects only. The thread-safe blocking clients (threading locks) are NOT claimed: OS-thread interleavings cannot be made symbolic by any installed engine; their lock discipline (timed acquisition, release only when held) is covered single-threaded by C11.",
 )
 
 CLAIMED["C14"] = dict(
-    text="Bounded symbolic execution with the crash point as a solver variable: each close path (stapled transports, aclose_forcefully, AsyncStreamEndpoint.aclose, server-side _ConnectedClientAPI.aclose, AsyncTCPNetworkClient.aclose, the asyncio socket adapter, AsyncTLSStreamTransport.aclose and .wrap with a peer that never answers) runs in a task on a deterministic loop; task.cancel() is injected at loop iteration k (symbolic; in the close2 shards a second cancellation at k2), combined with a solver-chosen fault (which wrapped close/send raises OSError or RuntimeError) and whether the TLS shutdown/handshake timeout expires first. Asserted: aclose() was invoked on every wrapped transport (both stapled halves even if the first raised; the wrapped transport after a failed or cancelled wrap()), is_closing() holds, a second aclose() returns promptly.",
+    text="Bounded symbolic execution with the crash point as a solver variable: each close path (stapled transports, aclose_forcefully, AsyncStreamEndpoint.aclose, server-side _ConnectedClientAPI.aclose, AsyncTCPNetworkClient.aclose, the asyncio socket adapter, AsyncTLSStreamTransport.aclose and .wrap with a peer that never answers or a local handshake failure over a wrapped transport whose send fails or stalls; AsyncTCPNetworkClient.aclose while a connection attempt is in flight; client / server-side client aclose while a concurrent send_packet holds the send lock) runs in a task on a deterministic loop; task.cancel() is injected at loop iteration k (symbolic; in the close2 shards a second cancellation at k2), combined with a solver-chosen fault (which wrapped close/send raises OSError or RuntimeError) and whether the TLS shutdown/handshake timeout expires first. Asserted: aclose() was invoked on every wrapped transport (both stapled halves even if the first raised; the wrapped transport after a failed or cancelled wrap()), is_closing() holds, a second aclose() returns promptly and normally. Open known findings F-C14-lockwait-client / -server (close cancelled while waiting for the send lock held by a stalled sender: nothing is closed) are excluded by signature and printed as KNOWN-FINDING.",
     design="4/C14",
     technique="symbolic execution of real code (CrossHair+z3): cancellation point, fault choice and timeout-first choice as solver variables on a deterministic asyncio loop",
     note="TLS paths use a stub SSL object (peer silent); real OpenSSL shutdown is outside. Real sockets are outside (in-memory transports).",
@@ -119,7 +119,7 @@ CLAIMED["C18"] = dict(
 )
 
 CLAIMED["C17"] = dict(
-    text="Bounded symbolic execution of the real AsyncTCPNetworkServer and AsyncUDPNetworkServer (client initializers, exception fences, _ClientContext.__aexit__, lowlevel handler builders, task-group wiring) on a deterministic loop with in-memory listeners: one faulty client raises a solver-chosen exception class (plain, group, ConnectionError, ClientClosedError, TimeoutError, mixed groups) at a shard-chosen hook position (on_connection before/after an await, handle before the first yield / after a request / while handling a thrown parse error / re-raising it / parse error after a valid pipelined request / yielding an invalid timeout, on_disconnection; TCP on both receive paths) or is reset right after accept, while a healthy client's traffic is interleaved by a solver-chosen schedule. Asserted: the server task keeps running, nothing reaches the event loop, the healthy client gets every response; TCP: faulty connection closed, on_disconnection ran iff on_connection completed; UDP: a later datagram of the faulty address is handled by a fresh generator.",
+    text="Bounded symbolic execution of the real AsyncTCPNetworkServer and AsyncUDPNetworkServer (client initializers, exception fences, _ClientContext.__aexit__, lowlevel handler builders, task-group wiring) on a deterministic loop with in-memory listeners: one faulty client raises a solver-chosen exception class (plain, group, ConnectionError, ClientClosedError, TimeoutError, mixed groups) at a shard-chosen hook position (on_connection before/after an await, handle before the first yield / after a request / while handling a thrown parse error / re-raising it / parse error after a valid pipelined request / yielding an invalid timeout, on_disconnection; a ConnectionError of any flavour on receive while the handler waits, which must close the generator, not be thrown into it; TCP on both receive paths) or is reset right after accept, while a healthy client's traffic is interleaved by a solver-chosen schedule. Asserted: the server task keeps running, nothing reaches the event loop, the healthy client gets every response; TCP: faulty connection closed, on_disconnection ran iff on_connection completed; UDP: a later datagram of the faulty address is handled by a fresh generator.",
     design="4/C17",
     technique="symbolic execution of real code (CrossHair+z3): exception class and schedule as solver variables on a deterministic asyncio loop",
     note="Exception subclasses and groups only (KeyboardInterrupt/SystemExit outside); TLS handshake failures outside (real OpenSSL); kernel RST modelled as ConnectionResetError on first read.",
